@@ -4,6 +4,8 @@ import (
 	"fmt"
 	"go/types"
 	"strings"
+
+	"golang.org/x/tools/go/ssa"
 )
 
 // rootOf returns the component root for objects of type t reached through a pointer.
@@ -177,7 +179,7 @@ func (a *Act) frameCheckRef(st *State, c string, ref string, pos string) {
 		a.vc.oblige("frame", a.label+c, st.reach, goal, "write to "+c+" must be inside the function's modifies clause or fresh", pos)
 	}
 	for li := a.innermostLoop(); li != nil; li = li.parent {
-		goal := or(inMods(li.items, c, ref), app(">", ref, a.root().allocE))
+		goal := or(inMods(li.items, c, ref), app(">", ref, li.threshold))
 		a.vc.oblige("frame", fmt.Sprintf("%sloop%d:%s", a.label, li.ord, c), st.reach, goal, "write to "+c+" inside loop must be in the loop's modifies set or allocated during the loop", pos)
 	}
 }
@@ -212,7 +214,11 @@ func (a *Act) noteFresh(comp, ref string) {
 		return
 	}
 	r := a.root()
-	r.freshAllocs = append(r.freshAllocs, modEntry{Comp: comp, Ref: ref, Src: "fresh"})
+	var site ssa.Value
+	if a == r {
+		site = a.curSite
+	}
+	r.freshAllocs = append(r.freshAllocs, modEntry{Comp: comp, Ref: ref, Src: "fresh", Site: site})
 }
 
 // allocObject allocates a zeroed object of type t and returns its reference.
@@ -379,7 +385,7 @@ func (a *Act) frameCheckRefCond(st *State, c, ref, cond, pos string) {
 		a.vc.oblige("frame", a.label+c, g, goal, "in-place append/copy into "+c+" must be inside the modifies clause or fresh", pos)
 	}
 	for li := a.innermostLoop(); li != nil; li = li.parent {
-		goal := or(inMods(li.items, c, ref), app(">", ref, a.root().allocE))
+		goal := or(inMods(li.items, c, ref), app(">", ref, li.threshold))
 		a.vc.oblige("frame", fmt.Sprintf("%sloop%d:%s", a.label, li.ord, c), g, goal, "in-place append/copy into "+c+" inside loop", pos)
 	}
 }
@@ -497,6 +503,9 @@ func (a *Act) leafComps(l *Loc) []string {
 func (a *Act) evalModItems(items []ModItem, env *Env) []modEntry {
 	var out []modEntry
 	for _, it := range items {
+		if it.Fresh {
+			continue
+		}
 		if it.All {
 			// "T.f" -> all objects' field f ; "[]T" -> all backing arrays of element type T
 			c := it.Comp
